@@ -18,7 +18,7 @@ from ..common import rng_for, b2j
 
 LEVEL = "exploration"
 SHARDS = {"quick": 1, "thorough": 16}
-REQUIRED = ("position_sweep_cases", "roundtrips_checked", "leaf_events", "holes_checked", "overlap_cases", "offsets_nonzero")
+REQUIRED = ("earlier_parses_repacked", "position_sweep_cases", "roundtrips_checked", "leaf_events", "holes_checked", "overlap_cases", "offsets_nonzero")
 MIN_NONTRIVIAL = 100
 RULE = {
     "quick": "seeded generator of declaration families over the whole language (Int all widths, Data in 7 sizing modes, Bits runs, "
@@ -180,7 +180,7 @@ def run(run):
     ninputs = 14
     # second population: positioning-heavy declarations (several at/shift fields, backward targets) so that
     # fields land in holes, flush against and one byte into other fields
-    overlap_profile = {"p_move": 0.6, "p_backward_at": 0.5, "max_fields": 5, "max_depth": 2, "p_rep": 0.08, "p_opt": 0.05,
+    overlap_profile = {"p_backrun": 0.25, "p_move": 0.6, "p_backward_at": 0.5, "max_fields": 5, "max_depth": 2, "p_rep": 0.08, "p_opt": 0.05,
                        "moves": {"at": 7, "shift": 3, "aligned": 1}, "references": {"innermost-pkt": 5, "begins": 2, "current-offset": 1},
                        "kinds": {"int": 45, "data": 40, "bits": 5, "ref": 6, "sel": 0, "em": 4}, "int_widths": [1, 1, 2, 2, 3, 4]}
     for bench in driver.families(run, rng, overlap_profile, VARIANTS, nfam // 3, tag="c01o"):
@@ -192,6 +192,35 @@ def run(run):
                 one_case(run, bench, rng, raw, 0)
                 if j < 4:
                     position_sweep(run, bench, rng, raw, 0)
+            except RecursionError:
+                run.count("recursion_skipped")
+        if run.counters["violations"] > 30:
+            return
+    # third population: run-time selected references, repeated (the same alternative chosen several times in one
+    # parse and in successive parses of one class)
+    selector_profile = {"kinds": {"int": 30, "data": 10, "bits": 5, "ref": 5, "sel": 40, "em": 1}, "p_rep": 0.5, "max_depth": 2}
+    for bench in driver.families(run, rng, selector_profile, VARIANTS, nfam // 5, tag="c01s"):
+        run.count("selector_heavy_families")
+        held = []
+        for j in range(10):
+            raw, oc = model.generate_input(bench.fam, rng, offset=0)
+            try:
+                one_case(run, bench, rng, raw, 0)
+                # a packet parsed earlier must still serialize to its own bytes after later parses of the class
+                r = harness.lib_unpack(bench.root("g"), raw, 0)
+                if r.status == "ok":
+                    p = harness.lib_pack(r.pkt)
+                    if p.status == "ok":
+                        held.append((r.pkt, p.pkt, raw))
+                for pkt, first, raw0 in held[:-1][-3:]:
+                    again = harness.lib_pack(pkt)
+                    run.count("earlier_parses_repacked")
+                    if again.status != "ok" or again.pkt != first:
+                        run.violation("a packet parsed earlier no longer serializes to its own bytes after another input was parsed with the same class",
+                                      {"source": driver.src_of(bench), "raw": b2j(raw0), "later_input": b2j(raw), "first_pack": b2j(first),
+                                       "pack_now": b2j(again.pkt) if again.status == "ok" else str(again.err)[:200], "fam": bench.fam}, None)
+                        held = []
+                        break
             except RecursionError:
                 run.count("recursion_skipped")
         if run.counters["violations"] > 30:
